@@ -238,7 +238,7 @@ def mesh_dups(rng):
     verts = [(float(i), 1.0, 2.0 * i) for i in range(nnode)]
     tri = _distinct_cells(rng, 'tri', nnode, 3)
     edg = _distinct_cells(rng, 'edg', nnode, 3)
-    tri = tri + [tri[0], (tri[1][2], tri[1][1], tri[1][0], tri[1][3] + 1)]
+    tri = tri + [tri[0], (tri[1][2], tri[1][1], tri[1][0], tri[1][3] % 1000 + 1)]
     edg = edg + [(edg[0][1], edg[0][0], 99), edg[-1]]
     rng.shuffle(tri)
     return {'dim': 3, 'verts': verts, 'cells': {'tri': tri, 'edg': edg}}
@@ -598,12 +598,15 @@ def hazard(data, w):
     above 2^31, a 2^32 count makes `section_size` 0 = an infinite loop).  Kept out of the default generation, see
     findings/partmeshb-* and ASSUMPTIONS.  `w`: the writer of the unmutated file (offsets of the count fields)."""
     vs, ve = w.sections[1][1], w.sections[1][2]
+    cad = [(a, b) for k, a, b in w.sections if k == 126]
     for kind, off, width in w.fields:
         if kind != 'count' or vs <= off < ve or off + width > len(data):
             continue
         c = struct.unpack_from('<q' if width == 8 else '<i', data, off)[0]
         if abs(c) > 1200000:
             return True
+        if c < 0 and any(a <= off < b for a, b in cad):
+            return True  # the byte count is read as unsigned: 2^32 - |c| bytes are allocated before the read
     return False
 
 
